@@ -10,7 +10,7 @@
 using namespace vfh;
 static int g_hash = 0;
 struct HC { static size_t hash(int k) { return g_hash == 0 ? (size_t)k : g_hash == 1 ? 7 : (size_t)(k & 3); } static bool equal(int a, int b) { return a == b; } };
-struct Val { int v; int canary; Val(int x = 0) : v(x), canary(0xC0FFEE) {} Val(const Val& o) : v(o.v), canary(0xC0FFEE) {} ~Val() { canary = 0xDEAD; } };
+struct Val { int v; int canary; Val(int x = 0) : v(x), canary(0xC0FFEE) {} Val(const Val& o) : v(o.v), canary(0xC0FFEE) { vf_plain_read(&o.v); vf_plain_write(&v); } ~Val() { vf_plain_write(&v); canary = 0xDEAD; } };   // contents announced to the happens-before oracle (-hb)
 typedef tbb::concurrent_hash_map<int, Val, HC> Map;
 enum { K_INS, K_FIND, K_COUNT, K_ERASE };
 static const char* const NAMES[] = {"insert", "find", "count", "erase"};
@@ -40,7 +40,7 @@ static void scenario() {
             case 'I': id = log.begin(K_INS, arg); r = map.insert(std::make_pair(k, Val(myv))); log.end(id, r); break;
             case 'M': id = log.begin(K_INS, arg); r = map.emplace(k, myv); log.end(id, r); break;
             case 'J': { id = log.begin(K_INS, arg); Map::accessor a; r = map.insert(a, std::make_pair(k, Val(myv))); log.end(id, r); hold_w(k, a->second); } break;
-            case 'F': { id = log.begin(K_FIND, arg); Map::const_accessor a; r = map.find(a, k) ? a->second.v : -1; a.release(); log.end(id, r); } break;
+            case 'F': { id = log.begin(K_FIND, arg); Map::const_accessor a; bool f0 = map.find(a, k); if (f0) vf_plain_read(&a->second.v); r = f0 ? a->second.v : -1; a.release(); log.end(id, r); } break;
             case 'C': id = log.begin(K_COUNT, arg); r = (long)map.count(k); log.end(id, r); break;
             case 'E': id = log.begin(K_ERASE, arg); r = map.erase(k); log.end(id, r); break;
             case 'A': { id = log.begin(K_FIND, arg); Map::accessor a; bool f = map.find(a, k); r = f ? a->second.v : -1; log.end(id, r); if (f) hold_w(k, a->second); } break;
